@@ -107,6 +107,8 @@ def main_controls(args):
         cs += json.load(open(p))
     if args.mutant:
         cs = [c for c in cs if c["id"] == args.mutant]
+    if args.only_prop:
+        cs = [dict(c, properties=[args.only_prop]) for c in cs if args.only_prop in c["properties"]]
     bad = []
     for k, c in enumerate(cs):
         m, status, detail, dt = run_control(c, args, k % max(args.j, 1))
@@ -121,6 +123,7 @@ def main_controls(args):
 def main():
     ap = argparse.ArgumentParser()
     ap.add_argument("--controls", action="store_true", help="run controls/*.json: behaviour-preserving edits on which every listed check must stay silent")
+    ap.add_argument("--only-prop", default="", help="with --controls: run only this property's check, on the controls that list it")
     ap.add_argument("-p", "--prop")
     ap.add_argument("-m", "--mutant")
     ap.add_argument("-j", type=int, default=4)
